@@ -1,6 +1,7 @@
 import Uquic.Oracle.Frame
 import Uquic.Model.Amp.Token
 import Uquic.Model.Amp.RetryGlue
+import Uquic.Model.Amp.Reuse
 import Uquic.Spec.TokenMon
 
 open Uquic.Oracle Uquic.Model.Tok Uquic.Spec.TokenMon
@@ -86,6 +87,25 @@ def resolveTok (s : TSt) (arg : String) : Option Bytes :=
 /-- ghost lookup: the issued token (under key `kid`) whose bytes are exactly `b` -/
 def issuedExactly (s : TSt) (kid : Nat) (b : Bytes) : Option Entry :=
   s.log.find? fun e => e.kid == kid && e.nonce ++ e.cipher == b
+
+/-- the life of the Transport of a `reuse` op, as model operations (`none`: malformed script) -/
+def parseScript (script : String) : Option (List Uquic.Model.Reuse.Op) :=
+  (script.splitOn ",").foldl (fun acc st =>
+    match acc with
+    | none => none
+    | some ops =>
+      let arg := (st.drop 1).toString
+      if st.startsWith "k" then some (ops ++ [.setKey (natOf arg)])
+      else if st.startsWith "a" then some (ops ++ [.setAge (intOf arg)])
+      else if st == "v0" then some (ops ++ [.setVerify false])
+      else if st == "v1" then some (ops ++ [.setVerify true])
+      else if st == "W" || st == "R" then some (ops ++ [.use])
+      else if st == "L" then some (ops ++ [.listen, .closeListener])
+      else none) (some [])
+
+/-- ghost, from the text of the script alone: the value written last behind `pfx` -/
+def lastWritten (script pfx : String) : Option String :=
+  (script.splitOn ",").foldl (fun acc st => if st.startsWith pfx then some (st.drop pfx.length).toString else acc) none
 
 def step (s : TSt) (op impl : String) : TSt × StepOut :=
   let w := words op
@@ -207,6 +227,36 @@ def step (s : TSt) (op impl : String) : TSt × StepOut :=
       let implVerified := implHead == "proceed" && field iw "av=" == some "1"
       let fails := judge kid b (some a) (maxAge, Uquic.Spec.TokenMon.retryLimit (intOf idle)) (if implVerified then "ok" else "err") implVerified
       return (s, { model := withTail text, tags := [tag], fails := fails })
+  | ["reuse", script, tok, addr, idle] =>
+    match resolveTok s tok, parseAddr addr, parseScript script with
+    | none, _, _ => (s, { model := "skip" })
+    | _, none, _ => (s, { model := "bad-op" })
+    | _, _, none => (s, { model := "bad-op" })
+    | some b, some a, some ops => Id.run do
+      -- the model: the listener opened at the end of this life of the Transport
+      match (Uquic.Model.Reuse.run (ops ++ [.listen])).srv with
+      | none => return (s, { model := withTail "E:listen" })
+      | some srv =>
+        let kid := srv.key.getD Uquic.Model.Reuse.randomKey
+        let retryAge := maxRetryTokenAge (intOf idle)
+        let out := handleInitial (cryptoOf s.log) (codecOf s.log) (secretOf kid) b [1, 2, 3, 4, 5, 6, 7, 8] a now srv.maxTokenAge retryAge srv.verify
+        let stale := ops.any (fun o => o == .use || o == .listen)
+        let (text, tag) := match out with
+          | .invalidToken => ("drop", "reuse:invalid-retry-token")
+          | .retry => ("retry", "reuse:retry")
+          | .proceed av _ _ _ => (s!"proceed av={if av then 1 else 0}", if av then "reuse:verified" else "reuse:unverified")
+          | .panic => ("PANIC", "reuse:panic")
+        -- ghost: the configuration written last, read off the script text
+        let gAge := match lastWritten script "a" with
+          | some x => if intOf x == 0 then (86400000000000 : Int) else intOf x
+          | none => 86400000000000
+        let gKid := match lastWritten script "k" with | some x => natOf x | none => Uquic.Model.Reuse.randomKey
+        let implVerified := implHead == "proceed" && field iw "av=" == some "1"
+        let mut fails := judge gKid b (some a) (gAge, Uquic.Spec.TokenMon.retryLimit (intOf idle)) (if implVerified then "ok" else "err") implVerified
+        if lastWritten script "v" == some "1" && implHead == "proceed" && !implVerified then
+          fails := fails ++ [("retry_policy_of_reused_transport", "-", "VerifySourceAddress was set before this Listen; a connection proceeds unverified without a Retry")]
+        let tags := [tag] ++ (if stale then ["reuse:after-use"] else ["reuse:fresh"])
+        return (s, { model := withTail text, tags := tags, fails := fails })
   | ["decode2", kid, tokA, tokB] =>
     match resolveTok s tokA, resolveTok s tokB with
     | some a, some b => Id.run do
